@@ -60,6 +60,8 @@ CONSTANTS Peers,         \* peer ids
           FollowAppend,  \* TRUE = as coded since fix F4 (FALSE: the follow stack had no appendStore)
           PinsOperatorHash, \* TRUE = as coded: StartFollowChain recomputes the hash of the chain info it fetched and
                          \* compares it with the operator's; FALSE: it trusts the hash FIELD of a peer's packet
+          CheckZeroIsClock, \* FALSE = as coded: upTo = 0 checks nothing and every target is clamped to the stored head;
+                         \* TRUE: upTo = 0 means "up to the clock's round" (MaxR here) and is not clamped
           ResyncDeletesFirst, \* FALSE = as coded: a corrected round is ONE overwriting store transaction;
                          \* TRUE: insecureStore.Del(round) and then insecureStore.Put(beacon), two transactions
           Aborts,        \* TRUE: the environment may cancel the repair's context between any two store
@@ -175,6 +177,9 @@ StackOf(mode) == IF mode = "follow" /\ ~FollowAppend THEN "follow" ELSE "full"
 LastUnreadable(s, chained) == chained /\ StoreHead(s) >= 1 /\ s[StoreHead(s) - 1] = "none"
 Faulty(s, chained, r) == s[r] # "ok" \/ (chained /\ s[r - 1] # "ok")
 CheckOp(s, chained, upTo) == {r \in 1..Min2(upTo, StoreHead(s)) : Faulty(s, chained, r)}
+\* the variant that reads upTo = 0 as the clock's round without clamping it to the head
+CheckOpClock(s, chained, upTo, clockRound) ==
+  IF upTo = 0 THEN {r \in 1..clockRound : Faulty(s, chained, r)} ELSE CheckOp(s, chained, upTo)
 
 -----------------------------------------------------------------------------
 (* Monitors (observable values only)                                        *)
@@ -223,7 +228,7 @@ Init ==
         pt \in [Peers -> 1..Len(PT)], co \in Corruptions :
        /\ \A p, q \in Peers : p < q => pt[p] <= pt[q]        \* peers are interchangeable: one mix per multiset
        /\ m # "repair" => co = {}
-       /\ m = "repair" => tg >= 1 /\ st >= 1
+       /\ m = "repair" => st >= 1
                           /\ \A c1 \in co : c1[1] >= 1 /\ c1[1] <= st
                           /\ \A c2, d2 \in co : c2[1] = d2[1] => c2 = d2
        /\ m # "repair" => (tg = 0 \/ tg > st)
@@ -477,7 +482,8 @@ RepairCheck ==
   /\ IF LastUnreadable(store, cfg.chained)
        THEN /\ drv' = [drv EXCEPT !.phase = "aborted"]
             /\ obs' = H([kind |-> "checkaborted"])
-       ELSE LET rep == CheckOp(store, cfg.chained, cfg.target) IN
+       ELSE LET rep == IF CheckZeroIsClock THEN CheckOpClock(store, cfg.chained, cfg.target, MaxR)
+                       ELSE CheckOp(store, cfg.chained, cfg.target) IN
             /\ drv' = [drv EXCEPT !.reported = rep, !.todo = SortedSeq(rep),
                                   !.phase = IF rep = {} THEN "done" ELSE "correct"]
             /\ obs' = H([kind |-> "check", reported |-> rep])
@@ -547,6 +553,9 @@ Inv_RepairUntouched ==
 RepairLosesRound(pre, post) == \E r \in DOMAIN pre : pre[r] # "none" /\ post[r] = "none"
 Inv_RepairKeepsRounds ==
   (cfg.mode = "repair" /\ drv.phase \in {"done", "aborted"}) => ~RepairLosesRound(cfg.store0, store)
+
+\* a repair writes through the raw store: it never moves the head (C02: WritesAboveHead)
+Inv_RepairKeepsHead == cfg.mode = "repair" => StoreHead(store) <= StoreHead(cfg.store0)
 
 \* the check always produces a report
 Inv_CheckNeverAborts == drv.phase # "aborted"
